@@ -4,7 +4,22 @@ from __future__ import annotations
 import copy
 import json
 
-from .common import add_failure, bump, new_outcome
+from .common import add_failure as _add_failure
+from .common import bump, new_outcome
+
+PER_SIG_CAP = 4
+
+
+def add_failure(out, kind, what, inp, expected, got, confirmed=True, sig=None, **kw):
+    """keep at most PER_SIG_CAP failures per signature, so that one (possibly known) class of
+    failure can never crowd a different one out of the bounded failure list"""
+    key = f"{kind}:{sig or what}"
+    seen = out.setdefault("_sig_seen", {})
+    seen[key] = seen.get(key, 0) + 1
+    if seen[key] > PER_SIG_CAP:
+        bump(out, "failures_beyond_cap", key)
+        return
+    _add_failure(out, kind, what, inp, expected, got, confirmed=confirmed, sig=sig, **kw)
 
 PROP = "C07"
 PROPS_FILES = ["CogentModel/Props/C07.lean"]
@@ -85,7 +100,7 @@ def correspondence(ctx):
         "recomputation"
     )
     rng = ctx.subrng("corr")
-    n_hist = ctx.budget(1500, 30000)
+    n_hist = ctx.budget(3000, 40000)
     cases = _small_exhaustive_cases()
     cases += _calc_cases(rng, n_hist, 30, malformed=False)
     n_valid = len(cases)
@@ -145,7 +160,43 @@ def correspondence(ctx):
         # only optimiser-parameter keys are covered by `reach` (a recycled cell is its own consequence)
         if all(g["cells"][i]["k"] == "opt" for i in key) and real != mod:
             add_failure(out, "corr", "cells_changed_by differs from model program", rq, mod, real, confirmed=False)
+    _corr_ctl(ctx, out)
     return out
+
+
+def _corr_ctl(ctx, out):
+    """REAL ParameterController over toy Defn graphs vs Model/Controller.lean, after every op:
+    all defn values, the dirty set, _update_suspended (blocks entered/left through the context
+    manager protocol, also left by an exception)"""
+    from . import c07_ctl as ct
+
+    rng = ctx.subrng("corr-ctl")
+    reqs, reals = [], []
+    xexit_as = "xexit"
+    if ct.exceptional_exit_restores():
+        xexit_as = "exit"
+        ctx.notes.append("updates_postponed() restores the flag when left by an exception (repaired tree): "
+                         "exceptional exits are model `exit` events, covered by controller_consistent_partial")
+    for _ in range(ctx.budget(400, 6000)):
+        c = ct.rand_ctl_case(rng)
+        rq, init, steps = ct.run_real_ctl(c, xexit_as)
+        reqs.append(("ctl", rq))
+        reals.append((init, steps))
+    for (_, rq), (init, steps), m in zip(reqs, reals, ctx.driver.batch(reqs)):
+        out["evaluations"] += 1
+        if "error" in m or init != m["init"]:
+            add_failure(out, "corr", "ParameterController initial values differ from model", rq, m.get("init", m), init,
+                        confirmed=False)
+            continue
+        for i, (a, b) in enumerate(zip(steps, m["steps"])):
+            bump(out, "ctl_op", rq["ops"][i][0])
+            if a != b:
+                add_failure(out, "corr", "ParameterController state after op differs from model",
+                            dict(rq, ops=rq["ops"][: i + 1]), b, a, confirmed=False)
+                break
+        else:
+            if any(o[0] == "exit" for o in rq["ops"]):
+                out["nontrivial"].add(("ctl", len(out["nontrivial"])))
 
 
 # --------------------------------------------------------------------------
@@ -349,11 +400,52 @@ def _spec_lf(ctx, out, rng, n_cases, n_ops, opt_budget):
         case["ops"] = _add_xblocks(rng, case["ops"])
         out["evaluations"] += 1
         bump(out, "lf_model", case["model"])
-        fails = _lf_case(case, out, sample=ci < 2)
+        try:
+            fails = _lf_case(case, out, sample=ci < 2)
+        except Exception as e:  # noqa  (a function that cannot even be built / observed)
+            fails = [dict(what="likelihood function history could not be run: " + repr(e)[:150],
+                          sig="lf:raised:" + type(e).__name__, expected="runs",
+                          got=type(e).__name__, input=dict(kind="lf", **case))]
         for f in fails:
             add_failure(out, "spec", f["what"], f["input"], f["expected"], f["got"], sig=f["sig"])
         if not fails:
             out["nontrivial"].add(("lf", ci, case["model"]))
+
+
+def _spec_ctl(ctx, out, rng, n):
+    """REAL ParameterController vs recomputing every definition from the last assigned settings,
+    whenever no updates_postponed block is open"""
+    from . import c07_ctl as ct
+
+    for _ in range(n):
+        c = ct.rand_ctl_case(rng)
+        rq, init, steps = ct.run_real_ctl(c)
+        out["evaluations"] += 1
+        settings = list(rq["settings"])
+        f = _ctl_check(rq, init, steps)
+        if f:
+            add_failure(out, "spec", f["what"], f["input"], f["expected"], f["got"], sig=f["sig"])
+        else:
+            out["nontrivial"].add(("spec-ctl", json.dumps(rq["ops"][:4])))
+
+
+def _ctl_check(rq, init, steps):
+    from . import c07_ctl as ct
+
+    settings = list(rq["settings"])
+    for i, (op, s) in enumerate(zip(rq["ops"], steps)):
+        if op[0] == "assign":
+            settings[op[1]] = op[2]
+        if s["depth"] == 0:
+            want = ct.fresh_values(rq, settings)
+            if s["values"] != want or s["suspended"]:
+                return dict(
+                    what="ParameterController values differ from recomputing every definition from the current "
+                         "settings although no updates_postponed block is open",
+                    sig="ctl:stale-values:" + ("suspended" if s["suspended"] else "not-suspended"),
+                    input=dict(kind="ctl", defns=rq["defns"], settings=rq["settings"], ops=rq["ops"][: i + 1]),
+                    expected=want, got=s["values"])
+    return None
 
 
 def spec_check(ctx, budget):
@@ -367,8 +459,9 @@ def spec_check(ctx, budget):
         "every reported value held constant (lnL rel 1e-9, nfp exact). non-trivial = histories completed without cut"
     )
     rng = ctx.subrng(f"spec{budget}")
-    _spec_calc(ctx, out, rng, 400 * budget)
-    n_cases = 14 * budget if not ctx.thorough else 12 * budget
+    _spec_calc(ctx, out, rng, 600 * budget)
+    _spec_ctl(ctx, out, rng, 300 * budget)
+    n_cases = 60 * budget if not ctx.thorough else 40 * budget
     _spec_lf(ctx, out, rng, n_cases, 7, (4, 10, 25))
     return out
 
@@ -383,9 +476,16 @@ def match_finding(f, k):
     inp = f.get("input") or {}
     if r.get("kind") and inp.get("kind") != r["kind"]:
         return False
-    if r.get("needs_xblock"):
+    if r.get("needs_exception_exit"):
+        # the failing step must be (lf) the block an exception left, or (toy controller) come after such an exit
         ops = inp.get("ops") or []
-        if not ops or ops[-1][0] != "xblock":
+        if inp.get("kind") == "lf":
+            if not ops or ops[-1][0] != "xblock":
+                return False
+        elif inp.get("kind") == "ctl":
+            if not any(o[0] == "xexit" for o in ops):
+                return False
+        else:
             return False
     return True
 
@@ -401,13 +501,39 @@ def _replay_input(inp):
         want = cc.fresh_python(inp["graph"], s["last"])
         print("reported vector", s["last"], "buffer", s["cur"], "fresh", want)
         return want != s["cur"] or s["reported"] != s["last"]
+    if inp.get("kind") == "ctl":
+        from . import c07_ctl as ct
+
+        rq, init, steps = _ctl_replay(inp)
+        f = _ctl_check(rq, init, steps)
+        if f:
+            print(f["sig"], "expected", f["expected"], "got", f["got"])
+        return bool(f)
     if inp.get("kind") == "lf":
         out = new_outcome()
-        fails = _lf_case(dict(model=inp["model"], taxa=inp["taxa"], aln0=inp["aln0"], ops=inp["ops"]), out)
+        try:
+            fails = _lf_case(dict(model=inp["model"], taxa=inp["taxa"], aln0=inp["aln0"], ops=inp["ops"]), out)
+        except Exception as e:  # noqa
+            print("raised", repr(e)[:200])
+            return True
         for f in fails:
             print(f["sig"], "expected", f["expected"], "got", f["got"])
         return bool(fails)
     return False
+
+
+def _ctl_replay(inp):
+    """re-run a recorded toy-controller history (defns are already in controller order)"""
+    from . import c07_ctl as ct
+
+    nodes = []
+    for i, d in enumerate(inp["defns"]):
+        if d["k"] == "leaf":
+            nodes.append(dict(k="leaf", name=f"n{i:03d}", v=inp["settings"][i]))
+        else:
+            nodes.append(dict(k="derived", name=f"n{i:03d}", args=d["args"], salt=d["salt"], mult=d["mult"]))
+    rq, init, steps = ct.run_real_ctl(dict(nodes=nodes, ops=inp["ops"]))
+    return rq, init, steps
 
 
 def replay(ctx, data):
